@@ -157,48 +157,81 @@ func runC13(c *Ctx) {
 	}
 	// the slice size handed to sliceRange is a multiple of the step (otherwise every slice restarts the evaluation grid)
 	{
-		var sizeObj, stepObj types.Object
+		var sizeExpr ast.Expr
+		var stepObj types.Object
 		ast.Inspect(rq.Decl.Body, func(n ast.Node) bool {
 			if call, ok := n.(*ast.CallExpr); ok && isCallTo(info, call, "internal/promapi.sliceRange") && len(call.Args) == 4 {
-				stepObj, sizeObj = objOf(info, call.Args[2]), objOf(info, call.Args[3])
+				stepObj, sizeExpr = objOf(info, call.Args[2]), call.Args[3]
 			}
 			return true
 		})
-		if sizeObj == nil || stepObj == nil {
-			c.Undecided("C13-R2", "RangeQuery:slice size variable", rq.Decl.Pos(), "sliceRange(start, end, step, size) call with variables not found")
+		if sizeExpr == nil || stepObj == nil {
+			c.Undecided("C13-R2", "RangeQuery:slice size variable", rq.Decl.Pos(), "sliceRange(start, end, step, size) call with a step variable not found")
 		} else {
+			// a size is fine when it is X.Round(step), the whole lookback (params.Dur()), the smaller or
+			// larger of two fine sizes, or a variable every assignment of which is fine
 			bad := ""
 			n := 0
-			ast.Inspect(rq.Decl.Body, func(nd ast.Node) bool {
-				as, ok := nd.(*ast.AssignStmt)
-				if !ok {
-					return true
+			var okSize func(e ast.Expr, depth int) bool
+			okSize = func(e ast.Expr, depth int) bool {
+				e = ast.Unparen(e)
+				if depth > 4 {
+					return false
 				}
-				for i, l := range as.Lhs {
-					if objOf(info, l) != sizeObj || i >= len(as.Rhs) {
-						continue
+				switch x := e.(type) {
+				case *ast.CallExpr:
+					if sel, isSel := x.Fun.(*ast.SelectorExpr); isSel && sel.Sel.Name == "Round" && len(x.Args) == 1 && objOf(info, x.Args[0]) == stepObj {
+						return true
 					}
-					n++
-					rhs := ast.Unparen(as.Rhs[i])
-					okRHS := false
-					if call, isCall := rhs.(*ast.CallExpr); isCall && len(call.Args) == 1 && objOf(info, call.Args[0]) == stepObj {
-						if sel, isSel := call.Fun.(*ast.SelectorExpr); isSel && sel.Sel.Name == "Round" {
-							okRHS = true
+					if sel, isSel := x.Fun.(*ast.SelectorExpr); isSel && sel.Sel.Name == "Dur" && len(x.Args) == 0 {
+						return true
+					}
+					if id, isID := x.Fun.(*ast.Ident); isID && (id.Name == "min" || id.Name == "max") {
+						if _, isB := info.Uses[id].(*types.Builtin); isB {
+							for _, a := range x.Args {
+								if !okSize(a, depth+1) {
+									return false
+								}
+							}
+							return len(x.Args) > 0
 						}
 					}
-					if id, isID := rhs.(*ast.Ident); isID {
-						// whole range in one slice: the value of params.Dur()
-						if definedByMethod(info, rq.Decl.Body, info.Uses[id], "Dur") {
-							okRHS = true
+				case *ast.Ident:
+					o := info.Uses[x]
+					if o == nil {
+						return false
+					}
+					if definedByMethod(info, rq.Decl.Body, o, "Dur") {
+						return true
+					}
+					cnt, all := 0, true
+					ast.Inspect(rq.Decl.Body, func(nd ast.Node) bool {
+						as, ok := nd.(*ast.AssignStmt)
+						if !ok {
+							return true
 						}
-					}
-					if !okRHS {
-						bad = exprStr(as)
-					}
+						for i, l := range as.Lhs {
+							if objOf(info, l) != o || i >= len(as.Rhs) {
+								continue
+							}
+							cnt++
+							n++
+							if !okSize(as.Rhs[i], depth+1) {
+								all = false
+								bad = exprStr(as)
+							}
+						}
+						return true
+					})
+					return cnt >= 1 && all
 				}
-				return true
-			})
-			c.Check(bad == "" && n >= 1, "C13-R2", "RangeQuery:slice size is a multiple of the step", rq.Decl.Pos(), itoa(n)+" assignment(s), all `.Round(step)` or the whole lookback", "the slice size is assigned by `"+bad+"`, which is not a multiple of the step: each slice restarts the step grid, so gaps next to a slice boundary appear or vanish")
+				return false
+			}
+			ok := okSize(sizeExpr, 0)
+			if !ok && bad == "" {
+				bad = exprStr(sizeExpr)
+			}
+			c.Check(ok, "C13-R2", "RangeQuery:slice size is a multiple of the step", rq.Decl.Pos(), itoa(n)+" assignment(s), all `.Round(step)` or the whole lookback", "the slice size is given by `"+bad+"`, which is not a multiple of the step: each slice restarts the step grid, so gaps next to a slice boundary appear or vanish")
 		}
 	}
 	// the only slice error that may be ignored is cancellation caused by an earlier failure
@@ -340,10 +373,25 @@ func runC13(c *Ctx) {
 
 // enclosingLit reports whether n lies inside a function literal within root.
 func enclosingLit(root ast.Node, n ast.Node) (*ast.FuncLit, bool) {
+	// structural containment (positions of code expanded from a helper lie elsewhere)
 	var found *ast.FuncLit
+	var lits []*ast.FuncLit
+	var stack []ast.Node
 	ast.Inspect(root, func(m ast.Node) bool {
-		if lit, ok := m.(*ast.FuncLit); ok && lit.Pos() <= n.Pos() && n.End() <= lit.End() {
-			found = lit
+		if m == nil {
+			top := stack[len(stack)-1]
+			stack = stack[:len(stack)-1]
+			if _, ok := top.(*ast.FuncLit); ok {
+				lits = lits[:len(lits)-1]
+			}
+			return true
+		}
+		stack = append(stack, m)
+		if lit, ok := m.(*ast.FuncLit); ok {
+			lits = append(lits, lit)
+		}
+		if m == n && len(lits) > 0 {
+			found = lits[len(lits)-1]
 		}
 		return true
 	})
